@@ -57,10 +57,10 @@ NOTES = {
     "C01": "49 parameter lists (harness/lists.hpp). quick: all histories of construction/emplace_back/pop_back/erase/clear/reserve (incl. reserve with a smaller payload budget) up to depth 8 (8 primary lists) / 6 (the others), capacities <= 3, span lengths <= 2, plus runs with spans of 4-8 objects and fixed size 8 and wide runs (capacities 16/17 through the macro operation fill, depth 5; 33 in thorough); thorough: depth 7 for all lists x {AE, NP} x both block-base alignments, capacities <= 4, span lengths <= 3; value mismatches of the layout family (see C02) count too; known finding K1",
     "C02": "layout family: 1410 lists in quick (all lists of <= 2 logical parameters over 10 (size, AlignAs) types + 480 three-parameter lists; <= 3 elements, counts and fixed sizes 0..3, every count matrix with <= 8 cells), 8646 lists in thorough (3 count types, all three-parameter lists over 6 types, a four-parameter family; <= 4 elements, count matrices with <= 6 cells), exact and page-aligned block bases; history runs depth 5-6, wide runs (17 elements), long-run proxy runs (reference swap/assignment over runs of 258-508 bytes in exactly filled vectors); two-vector histories (NP, PP) depth 4; the emplace source-form matrix under ASan",
     "C03": "as C02 restricted to lists with AlignAs (alignments up to 16); two-vector and element histories (NP) for relocated blocks",
-    "C04": "as C02; two-vector histories between vectors with different fixed sizes (depth 4) and element histories (depth 2-3)",
+    "C04": "as C02; two-vector histories between vectors with different fixed sizes (depth 4) and element histories (depth 2-3), incl. elements of equal byte size and different span lengths; iterator objects re-assigned after every operation denote the same objects as operator[]",
     "C05": "as C02 for the packing clause; footprint clause over reserve/copy/move/assignment histories of depth 5 (AE, NP; equal/unequal arenas); one known finding (K2)",
-    "C06": "20 lists with instrumented value types (Trk, TrkM, Cpy, Asg next to Trk) depth 6-7, 6 trivial lists depth 6 (clobbered values), two-vector histories depth 4-5, element histories depth 2-3; thorough: depth 6 / 5 / 3 for all of them x {AE,NP,PP}; known finding K1",
-    "C07": "3 allocator kinds x 10 lists (thorough: all 49), two-vector depth 4-5, elements depth 2-3",
+    "C06": "20 lists with instrumented value types (Trk, TrkM, Cpy, Asg next to Trk) depth 6-7, 6 trivial lists depth 6 (clobbered values), two-vector histories depth 4-5, element histories depth 2-3, two-vector runs with every allocation failing in turn; thorough: depth 6 / 5 / 3 for all of them x {AE,NP,PP}; known finding K1",
+    "C07": "3 allocator kinds (+ NPS: select_on_container_copy_construction; thorough + T100, T010, T001) x 10 lists (thorough: all 49), two-vector depth 4-5, elements depth 2-3",
     "C08": "6 trait combinations (thorough: all 8 + AE + NP with select_on_container_copy_construction) x equal/unequal arenas x lists {F3,V3} (thorough 5 lists), depth 5 (pair) / 3-4 (elements); exact count of move constructions for unequal-allocator move assignment",
     "C09": "17 lists (thorough all 49) x {AE, NP equal arenas, NP unequal arenas, PP}, capacities <= 2 (3), depth 4-5 (6 for two lists with unequal arenas), wide two-vector runs (17 elements); value types include std::string and a type that is trivially copy constructible but not trivially copyable; consequences of K1 are listed as known",
     "C10": "10 (thorough 49) lists; base states from histories of depth <= 3-4; big-span runs; runs with a failing reserve (fail(k)) followed by fills",
@@ -69,8 +69,8 @@ NOTES = {
     "C13": "value domain {0,1,200} ({0,-0.0,1} for float), span lengths <= 2 (3), fixed sizes {1,2} and operands with DIFFERENT fixed sizes (1/2, 2/1, 1/3, (1,2)/(2,1)) at vector and element level; right-hand operands in 5 environments (capacity, arena, used memory, junk, last element appended and popped again); 20 (27) lists incl. char / signed char lists, padding between fields, padding between elements only, size-dependent padding, FixedSize-only lists, FixedSize enclosed by plain parameters, FixedSize next to VaryingSize",
     "C14": "as C13 (for operands with different fixed sizes: differential oracle std::lexicographical_compare over the real references and the model-free axioms); one known finding (K3)",
     "C15": "16 (22) type pairs x up to 31 forms (incl. std::deque iterators across blocks, reverse iterators over contiguous storage, a stride-2 pointer iterator, move_iterator<reverse_iterator>, genuinely single-pass stream ranges) x lengths 0..3",
-    "C16": "as C01 plus two-vector histories with swap and move construction for AE, NP, PP and trait kinds whose swap and move traits disagree (T001, T101, T010; thorough all eight)",
-    "C17": "lists {F1,F3,V1,V3} (thorough 8 lists) x {AE,NP,PP}: two-vector histories depth 4 (5), element histories depth 3 (4), every allocation of every operation failed in turn, operands with unspecified contents are probed (clear, capacity() emplace_backs), assigned to and destroyed; plus fail(k), k <= 2, as an operation of the alphabet in front of reserve / copy construction / construction with exploration beyond the failure (depth 4-5, thorough 5-6)",
+    "C16": "as C01 plus two-vector histories with swap and move construction for AE, NP, PP and trait kinds whose swap and move traits disagree (T001, T101, T010; thorough all eight); swap must exchange block, capacity() and memory_consumption()",
+    "C17": "lists {F1,F3,V1,V3} (thorough 8 lists) x {AE,NP,PP} and {F1,V1} x {T100,T010} (thorough + T001, T110): two-vector histories depth 4 (5), element histories depth 3 (4), every allocation of every operation failed in turn, operands with unspecified contents are probed (data_begin()/data_end() describe them, they can be copied, clear, capacity() emplace_backs), assigned to and destroyed; plus fail(k), k <= 2, as an operation of the alphabet in front of reserve / copy construction / construction with exploration beyond the failure (depth 4-5, thorough 5-6)",
     "C18": "49 lists, capacities <= 2, depth 5 (7), default-INITIALISED vectors (`Vec v;`) in junk-filled storage; two-vector histories with empty/default-constructed operands (NP, AE; PP in thorough) depth 3 (4)",
     "C19": "11 (thorough 49) lists, states of depth <= 3 (5); const operations on the shared vector and on a shared element, copies whose k-th value copy throws, an allocator with select_on_container_copy_construction; accesses as instrumented by gcc",
     "C20": "45 cells x 49 lists x allocator kinds {AE,NP,PP,XNP} (XNP: explicit converting constructor; thorough: all eight trait combinations, NPS, XPP) x {c++17, c++20}; g++ 12 only; required cells derived from type traits",
